@@ -1029,3 +1029,40 @@ Example ex_constructors_exist :
   (exists u, new_unwrapper 16 4 true 24904 3 1 true = Ok u) /\
   (exists u, new_unwrapper 16 4 true 24904 3 1 false = Ok u).
 Proof. split; eexists; vm_compute; reflexivity. Qed.
+
+(* ================================================================== *)
+(* K. when the constructor refuses                                     *)
+(* ================================================================== *)
+
+(* inside the property's geometry the constructor refuses exactly: unwrapping on with no bits dropped, or
+   unwrapping on with a non-positive reset interval *)
+Lemma new_unwrapper_nonpositive_reset f d b ra ps inv :
+  0 < d < f -> f <= 16 -> f - d <= 14 -> ra <= 0 -> new_unwrapper f d true b ra ps inv = Panic.
+Proof.
+  intros Hd Hf Hk Hra.
+  assert (V : valid_en (mkP f d true b 1 ps inv)) by (unfold valid_en; cbn; repeat split; lia).
+  destruct (quantum_facts _ V) as (h & Hq & Hh & Hq2 & Hdiv).
+  unfold quantum in *. cbn [p_f p_d] in *.
+  unfold new_unwrapper.
+  replace (d =? 0) with false by lia. replace (d >? 0) with true by lia. cbn [andb].
+  assert (U1 : u64 (f - d) = f - d) by (unfold u64; apply Z.mod_small; lia).
+  rewrite U1. unfold shl_u16. replace (f - d >=? 16) with false by lia.
+  rewrite Z.mul_1_l. rewrite (u16_small (2 ^ (f - d))) by lia. rewrite (s16_small (2 ^ (f - d))) by lia.
+  replace (2 ^ (f - d) =? 0) with false by lia. replace (ra <=? 0) with true by lia. reflexivity.
+Qed.
+
+Lemma constructor_refuses_exactly_proof f d en b ra ps inv :
+  0 <= f -> 0 <= d -> (d = 0 \/ (0 < d < f /\ f <= 16 /\ f - d <= 14)) ->
+  (new_unwrapper f d en b ra ps inv = Panic <-> en = true /\ (d = 0 \/ ra <= 0)).
+Proof.
+  intros Hf Hd Hdom. destruct en.
+  - destruct Hdom as [-> | (H1 & H2 & H3)].
+    + split; [intros _; auto|]. intros _. reflexivity.
+    + destruct (Z_le_gt_dec ra 0) as [Hra | Hra].
+      * split; [intros _; auto|]. intros _. apply new_unwrapper_nonpositive_reset; assumption.
+      * assert (V : valid_en (mkP f d true b ra ps inv)) by (unfold valid_en; cbn; repeat split; lia).
+        destruct (new_unwrapper_valid f d b ra ps inv V) as (u & E & _).
+        rewrite E. split; [discriminate|]. intros [_ [H | H]]; lia.
+  - destruct (new_unwrapper_disabled f d b ra ps inv) as (u & E & _). rewrite E.
+    split; [discriminate|]. intros [H _]. discriminate.
+Qed.
